@@ -52,11 +52,11 @@ func runCheck(P *Program, verif, prop, tier string, seed int, verbose bool, t0 t
 	}
 	tmp, _ := os.MkdirTemp("", "govc-"+prop+"-")
 	defer os.RemoveAll(tmp)
-	timeout := 20 * time.Second
+	timeout := 45 * time.Second
 	if tier == "thorough" {
-		timeout = 60 * time.Second
+		timeout = 120 * time.Second
 	}
-	dischargeAll(obls, tmp, timeout, tier, 12)
+	dischargeAll(obls, tmp, timeout, tier, 10)
 
 	// verdicts
 	replayDir := filepath.Join(verif, "replays", prop)
